@@ -124,7 +124,8 @@ def run_harnesses(names, jobs=8, timeout=3000, per_harness_timeout=1500):
             if r1 and r1['status'] == 'fail' and r1['failed_checks']:
                 allres[h] = r1
             elif r1 and r1['status'] == 'ok':
-                allres[h] = {'status': 'limit', 'detail': 'failed under -j (resource cap) but passes alone'}
+                # the solo run is a full verification run of the harness: its verdict stands (the -j failure was a resource cap)
+                allres[h] = {'status': 'ok', 'time_s': r1.get('time_s'), 'note': 'hit a resource cap under -j, verified when re-run alone'}
             else:
                 allres[h] = {'status': 'limit', 'detail': (r1 or {}).get('detail', out1[-600:])}
     return allres
